@@ -214,6 +214,10 @@ func (a *aggregator) addPart(part, total uint8, data []byte) bool {
 	if a.parts == nil {
 		a.parts = make([][]byte, total)
 	}
+	if int(total) != len(a.parts) || int(part) >= len(a.parts) {
+		// contradicts the part count announced by the first part seen for this message: drop it.
+		return false
+	}
 	a.parts[int(part)] = append([]byte{}, data...)
 	for i := range a.parts {
 		if a.parts[i] == nil {
